@@ -3,7 +3,7 @@
    stored frames are the padded cuts of one matrix at grid positions. *)
 From Coq Require Import String ZArith List Bool Permutation Sorted.
 From HD Require Import Base.Val C12_Model C12_Proofs C04_Model C04_Proofs C04_Proofs_Store C04_Proofs_Geom
-                       C04_Proofs_Arr C04_Proofs_E2E C04_Proofs_Vol C04_Proofs_Order.
+                       C04_Proofs_Arr C04_Proofs_E2E C04_Proofs_Vol C04_Proofs_Order C04_Proofs_Comb.
 Import ListNotations.
 Open Scope Z_scope.
 
@@ -485,3 +485,79 @@ Example C04_example_end_to_end :
   end.
 Proof. vm_compute. repeat split; try reflexivity; intros row [<-|[<-|[<-|[<-|[<-|[]]]]]]; reflexivity. Qed.
 Print Assumptions C04_example_end_to_end.
+
+(* ---- combine_segments=True on BINARY / FRACTIONAL storage -------------------------------------- *)
+(* a LABEL MASK passed as a whole matrix, tiled by the library and stored as one binary
+   plane per described segment, reads back combined as the numpy slice of the mask that was
+   passed (unrequested labels -> 0; with relabel a requested label -> its 1-based position
+   in the request) - the statement of C04_seg_labelmap_end_to_end / _relabel_ for the other
+   two segmentation types - for every tile size, organisation, omission flag, request
+   without repetitions, argument convention, with or without the overlap check *)
+Theorem C04_seg_combined_end_to_end : forall ty mf full omit L segs R C th tw st sel relabel skip ai rs re cs ce,
+  ty <> Labelmap -> 1 <= mf -> 1 <= R -> 1 <= C -> 1 <= th -> 1 <= tw -> wf_matrix L R C ->
+  NoDup segs -> (forall k, In k segs -> 1 <= k) ->
+  stored ty mf full omit (planes_of_labelmap L segs) segs R C th tw = Ok st ->
+  NoDup sel -> (forall k, In k sel -> In k segs) ->
+  seg_read_combined ty mf st sel relabel true skip R C th tw ai rs re cs ce =
+  match spec_region ai R C rs re cs ce with
+  | Some (s, e, c0, c1) =>
+      Ok (map (map (fun v => if relabel then index1 v sel else if existsb (Z.eqb v) sel then v else 0))
+              (submatrix L (s - 1) (e - 1) (c0 - 1) (c1 - 1)))
+  | None => Err "ValueError"
+  end.
+Proof. exact seg_combined_end_to_end. Qed.
+Print Assumptions C04_seg_combined_end_to_end.
+
+(* planes passed as a stack may overlap: a combined BINARY read is refused (RuntimeError)
+   exactly when two requested planes are both set at one cell INSIDE the region read *)
+Theorem C04_seg_combined_overlap_iff : forall mf full omit planes R C th tw st sel relabel rescale ai rs re cs ce s e c0 c1,
+  1 <= R -> 1 <= C -> 1 <= th -> 1 <= tw ->
+  NoDup (map fst planes) -> (forall k Mk, In (k, Mk) planes -> wf_matrix Mk R C) ->
+  stored Binary mf full omit planes (map fst planes) R C th tw = Ok st ->
+  (forall k, In k sel -> In k (map fst planes)) ->
+  spec_region ai R C rs re cs ce = Some (s, e, c0, c1) ->
+  (seg_read_combined Binary mf st sel relabel rescale false R C th tw ai rs re cs ce = Err "RuntimeError" <->
+   exists i j, s - 1 <= i < e - 1 /\ c0 - 1 <= j < c1 - 1 /\
+     (1 < length (filter (fun k => (0 <? cell (plane_of k planes) i j)%Z) sel))%nat).
+Proof. exact seg_combined_overlap_iff. Qed.
+Print Assumptions C04_seg_combined_overlap_iff.
+
+(* ... and Segmentation.get_volume(combine_segments=True) on a tiled segmentation reads
+   what get_total_pixel_matrix reads, for every argument and option *)
+Theorem C04_seg_combined_volume_agrees : forall ty mf st sel relabel rescale skip R C th tw ai rs re cs ce,
+  1 <= R -> 1 <= C ->
+  vol_region ai rs re cs ce R C (seg_read_combined ty mf st sel relabel rescale skip R C th tw) =
+  seg_read_combined ty mf st sel relabel rescale skip R C th tw ai rs re cs ce.
+Proof. exact seg_combined_vol_agrees. Qed.
+Print Assumptions C04_seg_combined_volume_agrees.
+
+(* non-vacuity: a 4 x 3 label mask in 2 x 2 tiles, stored BINARY with omission / FRACTIONAL
+   TILED_FULL, read combined on an unaligned region; overlapping planes refused only where they meet *)
+Example C04_example_combined :
+  let L := [[0;1;2];[3;3;0];[0;2;2];[1;0;3]] in
+  wf_matrix L 4 3 /\
+  match stored Binary 1 false true (planes_of_labelmap L [1;2;3]) [1;2;3] 4 3 2 2 with
+  | Ok st => length st = 7%nat /\
+             seg_read_combined Binary 1 st [3;1] false true false 4 3 2 2 true (Some 1) None (Some (-2)) None =
+               Ok [[3;0];[0;0];[0;3]] /\
+             seg_read_combined Binary 1 st [3;1] true true false 4 3 2 2 false None (Some 3) None None =
+               Ok [[0;2;0];[1;1;0]]
+  | Err _ => False
+  end /\
+  match stored Fractional 255 true false (planes_of_labelmap L [1;2;3]) [1;2;3] 4 3 2 2 with
+  | Ok st => seg_read_combined Fractional 255 st [2;3] false true false 4 3 2 2 false None None None None =
+               Ok [[0;0;2];[3;3;0];[0;2;2];[0;0;3]] /\
+             seg_read_combined Fractional 255 st [2;3] false false false 4 3 2 2 false None None None None =
+               Err "ValueError"
+  | Err _ => False
+  end /\
+  let P := [[1;1;0];[0;0;0];[0;0;0];[0;0;0]] in let Q := [[0;1;0];[0;0;0];[0;0;1];[0;0;0]] in
+  match stored Binary 1 false true [(1, P); (2, Q)] [1;2] 4 3 2 2 with
+  | Ok st => seg_read_combined Binary 1 st [1;2] false true false 4 3 2 2 false None None None None = Err "RuntimeError" /\
+             seg_read_combined Binary 1 st [1;2] false true false 4 3 2 2 false (Some 2) None None None = Ok [[0;0;0];[0;0;2];[0;0;0]] /\
+             seg_read_combined Binary 1 st [1;2] false true true 4 3 2 2 false None None None None =
+               Ok [[1;2;0];[0;0;0];[0;0;2];[0;0;0]]
+  | Err _ => False
+  end.
+Proof. vm_compute. repeat split; try reflexivity; intros row [<-|[<-|[<-|[<-|[]]]]]; reflexivity. Qed.
+Print Assumptions C04_example_combined.
